@@ -5,6 +5,18 @@ use crate::config::Config;
 use humphrey::http::mime::MimeType;
 use std::{collections::VecDeque, time::SystemTime};
 
+/// Clock override for the verification harness: `u64::MAX` means "use the system clock".
+#[cfg(humphrey_verif)]
+pub static VERIF_NOW: std::sync::atomic::AtomicU64 = std::sync::atomic::AtomicU64::new(u64::MAX);
+
+#[cfg(humphrey_verif)]
+fn verif_now() -> Option<u64> {
+    match VERIF_NOW.load(std::sync::atomic::Ordering::SeqCst) {
+        u64::MAX => None,
+        now => Some(now),
+    }
+}
+
 /// Represents the server's cache.
 #[derive(Default)]
 pub struct Cache {
@@ -37,6 +49,8 @@ impl Cache {
             .duration_since(SystemTime::UNIX_EPOCH)
             .unwrap()
             .as_secs();
+        #[cfg(humphrey_verif)]
+        let time = verif_now().unwrap_or(time);
 
         let index = self
             .data
@@ -84,6 +98,28 @@ impl Cache {
                 .unwrap()
                 .as_secs(),
         });
+        #[cfg(humphrey_verif)]
+        if let (Some(now), Some(item)) = (verif_now(), self.data.back_mut()) {
+            item.cache_time = now;
+        }
+    }
+}
+
+#[cfg(humphrey_verif)]
+impl Cache {
+    /// Creates a cache with the given limits (verification harness only).
+    pub fn verif_new(cache_limit: usize, cache_time_limit: u64) -> Self {
+        Self {
+            cache_limit,
+            cache_time_limit,
+            cache_size: 0,
+            data: VecDeque::new(),
+        }
+    }
+
+    /// The internal size counter and the stored items, oldest first (verification harness only).
+    pub fn verif_state(&self) -> (usize, Vec<&CachedItem>) {
+        (self.cache_size, self.data.iter().collect())
     }
 }
 
